@@ -1,5 +1,6 @@
 import ShellOp.Util
 import ShellOp.Model.Trigger
+import ShellOp.Model.FactoryStore
 import ShellOp.Drv.JsonParse
 /-! Line-protocol suite for C08 (trigger decision of a resource informer). Core-only.
 
@@ -186,6 +187,15 @@ structure Multi where
   cur : Nat := 0
   st : St := {}
   saved : List (Nat × St) := []
+  fs : Snapshot.FStore := []   -- the operator's FactoryStore (cluster cases: `attach k` / `stop k`)
+
+/-- all bindings of a hook have the same kind, namespace and selectors: one factory index -/
+def hookIdx : Snapshot.Key := ⟨0, 0, 0⟩
+
+/-- the bindings (numbers < 8) the store serves: a stored factory carrying their registration -/
+def showServed (fs : Snapshot.FStore) : String :=
+  let l := (List.range 8).filter (fun k => Snapshot.fsServed fs k hookIdx)
+  "served=" ++ (if l.isEmpty then "-" else String.intercalate "," (l.map toString))
 
 def stepMulti (m : Multi) (toks : List String) : Multi × String :=
   match toks with
@@ -195,7 +205,17 @@ def stepMulti (m : Multi) (toks : List String) : Multi × String :=
     | some k =>
       if k == m.cur then (m, "ok") else
       let saved := aset m.cur m.st m.saved
-      ({ cur := k, st := (aget k saved).getD {}, saved := saved }, "ok")
+      ({ m with cur := k, st := (aget k saved).getD {}, saved := saved }, "ok")
+  | ["attach", k] =>
+    -- `resourceInformer.start()` → `FactoryStore.Start`
+    match k.toNat? with
+    | none => (m, "bad-op")
+    | some k => let fs := Snapshot.fsStart m.fs k hookIdx; ({ m with fs := fs }, showServed fs)
+  | ["stop", k] =>
+    -- the binding's context ends → `FactoryStore.Stop`
+    match k.toNat? with
+    | none => (m, "bad-op")
+    | some k => let fs := Snapshot.fsStop m.fs k hookIdx; ({ m with fs := fs }, showServed fs)
   | _ =>
     let r := step m.st toks
     ({ m with st := r.1 }, r.2)
